@@ -57,6 +57,13 @@ def generate(G):
                      unwind=n + G.numel(xd) + 3, tier=tier, heavy=(n >= 6 and (u >= 2 or passes >= 2)) or n >= 8,
                      skeleton={"x": xd, "partner": yd, "class": cls, "uses": u, "passes": passes, "program": prog},
                      domains="values and per-pass seeds: %s" % dom)
+    # the additive term of a batched matmul with its own batch dimension and a unit row dimension
+    G.ob("c03_matmul_bias_2x1x2", "C03", "matmul_bias",
+         "grad::grad(s, &programs::Matmul { at: false, bt: false, c: true }, %s, Seed::Explicit(Dom::D4), false)" % G.leaves(
+             [G.leaf([2, 2, 1], "D2", tracked=False), G.leaf([2, 1, 2], "D2", tracked=False), G.leaf([2, 1, 2], "D4")]),
+         unwind=14, tier="quick", heavy=True,
+         skeleton={"x": [2, 1, 2], "role": "additive term of [2,2,1] x [2,1,2] -> [2,2,2]", "class": "batch dimension + unit row dimension"},
+         domains="matrices D2 (untracked), additive term and seed D4")
     for xd, yd, cls, tier in [([2], [2, 2], "lower-rank", "quick"), ([1, 2], [2, 2], "leading-unit", "quick"),
                               ([3], [2, 3], "lower-rank", "thorough"), ([1, 3], [2, 3], "leading-unit", "thorough"),
                               ([2, 1], [2, 3], "trailing-unit", "thorough"), ([1, 2], [2, 2, 2], "rank2-leading-unit-in-rank3", "thorough")]:
